@@ -300,6 +300,11 @@ pub fn rows() -> Vec<(&'static str, crate::rt::Ops)> {
         ("@pbk::BoolValue", ops::<bool>()),
         ("@pbk::DoubleValue", ops::<f64>()),
         ("@pbk::UInt32Value", ops::<u32>()),
+        ("@pbk::UInt64Value", ops::<u64>()),
+        ("@pbk::Int32Value", ops::<i32>()),
+        ("@pbk::FloatValue", ops::<f32>()),
+        ("@pbk::BytesBValue", ops::<::bytes::Bytes>()),
+        ("@pbk::Empty", ops::<()>()),
         // the same wrappers under names the value generator fills with negative zero
         ("@pbk::NzDoubleValue", ops::<f64>()),
         ("@pbk::NzFloatValue", ops::<f32>()),
